@@ -6,6 +6,7 @@ import (
 	"os"
 	"path/filepath"
 	"runtime"
+	"runtime/pprof"
 	"sort"
 	"strconv"
 	"strings"
@@ -77,7 +78,13 @@ func cmdRun(args []string) int {
 	showCands := fs.Int("show", 5, "candidates to print")
 	params := paramFlags{}
 	fs.Var(params, "p", "harness parameter k=v (repeatable)")
+	cpuprof := fs.String("cpuprofile", "", "write a CPU profile")
 	fs.Parse(args)
+	if *cpuprof != "" {
+		f, _ := os.Create(*cpuprof)
+		pprof.StartCPUProfile(f)
+		defer pprof.StopCPUProfile()
+	}
 
 	ld, err := loadTarget(*repo, *target)
 	if err != nil {
@@ -110,6 +117,17 @@ func cmdRun(args []string) int {
 		return 2
 	}
 	printSummary(res)
+	for n, recs := range res.Records {
+		for k, r := range recs {
+			if k >= 2 {
+				break
+			}
+			fmt.Printf("RECORD %s vars=%v reaches=%v\n", n, r.Vars, r.Reaches)
+			for on, ov := range r.Obs {
+				fmt.Printf("    obs %s = %q\n", on, ov)
+			}
+		}
+	}
 	for k, c := range res.Cands {
 		if k >= *showCands {
 			break
